@@ -719,6 +719,20 @@ class Interp:
             raise Thrown(qt(ch[0]) if ch else 'rethrow')
         if k in ('CXXConstructExpr', 'CXXTemporaryObjectExpr'):
             real = [c for c in ch if c['kind'] != 'CXXDefaultArgExpr']
+            # an object of a class of the repository: build it through its user-provided constructor
+            import re as _re
+            tq = _re.sub(r'^(const |class |struct )+', '', qt(n)).strip()
+            rcls = tq if tq in self.idx.records else None
+            if rcls is None and tq and '<' not in tq and '::' not in tq and not tq.startswith('std'):
+                rcls = self.idx._resolve_record_name(tq, env['this'].cls if isinstance(env.get('this'), Obj) else '')
+            if rcls is not None and not (len(real) == 1 and rcls.split('::')[-1] in (qt(real[0]) + dqt(real[0]))):
+                user = [c for c in self.idx.records[rcls].ctors if not c.node.get('isImplicit') and len(c.params) >= len(real)]
+                if user or not real:
+                    try:
+                        return self.construct(rcls, [self.expr(a, env) for a in real])
+                    except AnalysisBroken:
+                        if real:
+                            raise
             if len(real) == 1:
                 return self.expr(real[0], env)
             if len(real) == 2 and _is_string_type(dqt(n)):
@@ -1231,6 +1245,14 @@ class Interp:
         len(argvals) parameters (bases are constructed recursively)."""
         rec = self.idx.record(cls)
         cands = [c for c in rec.ctors if not c.node.get('isImplicit') and len(c.params) == len(argvals)]
+        if not cands:
+            # fewer arguments than parameters: the remaining parameters take their default arguments
+            more = [c for c in rec.ctors if not c.node.get('isImplicit') and len(c.params) > len(argvals) and
+                    all(children(p_) for p_ in c.params[len(argvals):])]
+            if more:
+                c0 = sorted(more, key=lambda c_: len(c_.params))[0]
+                argvals = list(argvals) + [self.expr(children(p_)[-1], {'this': None, 'locals': {}}) for p_ in c0.params[len(argvals):]]
+                cands = [c0]
         if obj is None:
             obj = Obj(cls, {}, name or cls.split('::')[-1])
         if not cands:
